@@ -166,12 +166,12 @@ def run_case(case):
         S.TURN['active'] = False
 
 
-def coq_threads_check(case, obs):
+def coq_threads_check(case, obs, stp='step'):
     solo = '[' + '; '.join(L.coq_obs(obs['solo'][p]) for p in ('main', 'other')) + ']'
     thr = '[' + '; '.join(f'({L.coq_obs(t["main"])}, {L.coq_obs(t["other"])})' for t in obs['threaded']) + ']'
-    return (f'(c12_threads_check {L.coq_defs(case)} {L.coq_threads(case)} {L.coq_scheds(case)} '
+    return (f'(c12_threads_check {stp} {L.coq_defs(case)} {L.coq_threads(case)} {L.coq_scheds(case)} '
             f'{solo} {thr})')
 
 
-def coq_threads_show(case):
-    return f'(c12_threads_show {L.coq_defs(case)} {L.coq_threads(case)} {L.coq_scheds(case)})'
+def coq_threads_show(case, stp='step'):
+    return f'(c12_threads_show {stp} {L.coq_defs(case)} {L.coq_threads(case)} {L.coq_scheds(case)})'
